@@ -38,7 +38,7 @@ for p in props:
         "evidence_file": "evidence/%s.json" % pid, "replay_cmd_template": "./check %s --replay {path}" % pid,
         "engine": "coq-correspondence",
         "level_claimed": {"category": "proof", "text": t.get('text', PROPS[pid].get('explanation', '')),
-                          "design_ref": "DESIGN.md section 6 " + pid},
+                          "design_ref": "DESIGN.md I.5 (row %s, as built) and Part II section 6 %s (original design); docs/" % (pid, pid)},
         "level_note": t.get('note', "Coq 8.16.1 kernel + vm_compute; no axioms (Print Assumptions quoted in the evidence on every run); "
                       "the Gallina model is hand-written and tied to the code by the correspondence check (differential, bounded by the "
                       "generators); Go standard library and the kernel are modelled, not verified"),
